@@ -379,3 +379,6 @@ func Bound(name string, quick int) int {
 	f, _ := v.(float64)
 	return int(f)
 }
+
+// Timed reports whether the run uses the engine's timed semantics (never natively: real clocks jitter).
+func Timed() bool { return false }
